@@ -29,13 +29,44 @@ func (e *Engine) VerifyLemma(name string) {
 	if l.Pkg != "" {
 		ctx.pkg = e.typesPkg(l.Pkg)
 	}
-	t, err := ctx.EvalBool(l.Body.E)
+	// a leading universal quantifier is replaced by fresh constants (valid for all values iff valid
+	// for arbitrary constants); side conditions generated while evaluating the body (e.g. the
+	// defining equations of float bit patterns) may then mention them
+	body := l.Body.E
+	var vars []NamedVal
+	if q, ok := body.(*Quant); ok && q.Forall {
+		func() {
+			defer func() {
+				if r := recover(); r != nil {
+					if _, ok := r.(evalErr); !ok {
+						panic(r)
+					}
+				}
+			}()
+			env := map[string]TV{}
+			var vs []NamedVal
+			for _, qv := range q.Vars {
+				t := ctx.resolveType(qv.Type)
+				srt := scalarSort(t)
+				if srt == nil {
+					return
+				}
+				v := Var("lemma:"+qv.Name, srt)
+				env[qv.Name] = TV{V: v, T: t}
+				vs = append(vs, NamedVal{Name: qv.Name, T: v})
+			}
+			ctx = ctx.with(env)
+			body = q.Body
+			vars = vs
+		}()
+	}
+	t, err := ctx.EvalBool(body)
 	if err != nil {
 		e.Obls = append(e.Obls, &Obligation{Name: "lemma:" + name, Kind: "resolve", Func: "lemma:" + name, Failed: err.Error() + " at " + l.Body.Where()})
 		return
 	}
 	e.Obls = append(e.Obls, &Obligation{Name: "lemma:" + name, Kind: "lemma", Func: "lemma:" + name, Assume: append([]*Term(nil), st.PC...), Goal: t,
-		Clause: l.Body.Text, Where: l.Body.Where()})
+		Clause: l.Body.Text, Where: l.Body.Where(), Vars: vars})
 }
 
 func sanitizeFileName(s string) string {
@@ -168,6 +199,10 @@ type Mutant struct {
 	New      string `json:"new"`
 	Expect   string `json:"expect"` // substring of an obligation name expected to fail (optional)
 	Note     string `json:"note"`
+	// Only restricts the run to these items of the property (function keys, "lemma:NAME",
+	// "structural:NAME"): obligations are generated per function, so the verdict on the expected
+	// obligation is the same as in a full run; it only saves time.
+	Only []string `json:"only"`
 }
 
 func loadMutants(verifDir, prop string) []Mutant {
@@ -211,7 +246,23 @@ func RunSelftest(verifDir, repoDir, prop string, pd *PropertyDef, timeoutS int) 
 			continue
 		}
 		mut := strings.Replace(string(data), m.Old, m.New, 1)
-		oc, err := RunProperty(pd, repoDir, verifDir, min(timeoutS, 20), 0, map[string][]byte{path: []byte(mut)})
+		pdm := pd
+		if len(m.Only) > 0 {
+			c := *pd
+			c.Funcs, c.Lemmas, c.Structural = nil, nil, nil
+			for _, o := range m.Only {
+				switch {
+				case strings.HasPrefix(o, "lemma:"):
+					c.Lemmas = append(c.Lemmas, strings.TrimPrefix(o, "lemma:"))
+				case strings.HasPrefix(o, "structural:"):
+					c.Structural = append(c.Structural, strings.TrimPrefix(o, "structural:"))
+				default:
+					c.Funcs = append(c.Funcs, o)
+				}
+			}
+			pdm = &c
+		}
+		oc, err := RunProperty(pdm, repoDir, verifDir, min(timeoutS, 20), 0, map[string][]byte{path: []byte(mut)})
 		if err != nil {
 			d["result"] = "killed (tree does not load: " + firstLines(err.Error(), 1) + ")"
 			killed++
